@@ -9,7 +9,7 @@
 use std::collections::HashMap;
 
 use explorer::{json, Report};
-use p2panda::streams::verif::Aggregator;
+use p2panda::streams::verif::{aggregator_process, Aggregator};
 use p2panda_core::SigningKey;
 use p2panda_sync::protocols::{Metrics, TopicLogSyncEvent};
 use p2panda_sync::FromSync;
@@ -150,7 +150,7 @@ fn explore(rep: &mut Report, combo: &[Script]) {
                 let mut a2 = agg.clone();
                 let ev = seqs[s][pos[s]].clone();
                 let r = explorer::catch(|| {
-                    let _ = a2.process(FromSync { session_id: s as u64 + 1, remote: k, event: ev });
+                    let _ = aggregator_process(&mut a2, FromSync { session_id: s as u64 + 1, remote: k, event: ev });
                 });
                 let mut p2 = pos.clone();
                 p2[s] += 1;
